@@ -20,7 +20,7 @@ PROP = "C10"
 LEVEL = "exploration"
 TIMEOUT_S = 600.0
 RULE = ("one run = Parallel(backend='loky', n_jobs 2..4, batch_size 1/2/auto) x 1-4 consecutive calls (managed or not) of "
-        "1-8 tasks with results of 10 B / 3 KB / 100 KB (larger than the pipe capacity) x kill plan: 0-2 kills, victim = "
+        "1-8 tasks with results and arguments of 10 B / 3 KB / 100 KB (larger than the pipe capacity), pre_dispatch 2*n_jobs / n_jobs / all x kill plan: 0-2 kills, victim = "
         "the worker that reaches the k-th yield point of a chosen kind (pipe write = sending a result, pipe read = "
         "receiving a call, lock/semaphore operations, task start, idle wait) or any worker at a global step, armed in "
         "a chosen call or between calls x idle gaps of 400 s (> idle-worker timeout: workers exit and are respawned) x seeded schedule; distinct = digest of (thread role, event kind) sequence; "
@@ -45,7 +45,7 @@ KINDS = ["pwrite", "pwrite", "pread", "sem_acq", "acq", "rel", "sleep", "task", 
 W = None
 
 
-def work(c, i, size, dur):
+def work(c, i, size, dur, blob=b""):
     s = ds.S
     me = s.me()
     W.exec_log.append((c, i, me.proc.pid if me.proc else None))
@@ -64,6 +64,9 @@ def gen_case(rng):
         n = rng.randint(1, 8)
         calls.append({"n": n, "sizes": [rng.choice([10, 10, 3000, 100000]) for _ in range(n)],
                       "dur": [rng.choice([0.0, 0.0, 0.01, 0.2]) for _ in range(n)],
+                      # size of the task's argument: 100 KB tasks fill the call pipe, the feeder thread blocks in the middle
+                      # of a message until a worker reads
+                      "args": [rng.choice([0, 0, 0, 3000, 100000]) for _ in range(n)] if rng.random() < 0.35 else [0] * n,
                       # idle for longer than the idle-worker timeout (300 s) before this call: the workers have exited
                       # on their own and the call runs on freshly respawned ones
                       "gap_before": 400.0 if (c > 0 and rng.random() < 0.25) else 0.0})
@@ -74,14 +77,20 @@ def gen_case(rng):
                       "kind": rng.choice(KINDS), "nth": rng.choice([1, 1, 2, 2, 3, 4, 5, 7, 9]), "delay": rng.choice([0.0, 0.001, 0.02, 0.2]),
                       # how the victim dies decides its exit code only: SIGKILL, SIGTERM, SIGSEGV, real-time signals, os._exit(n)
                       "code": rng.choice([-9, -9, -9, -15, -11, -37, -62, 1, 3, 255])})
+    if rng.random() < 0.3:
+        # the calls ask for different numbers of workers: the reusable executor is resized (up: new workers are spawned,
+        # down: workers are told to exit) at the start of a call -- a worker may die right then
+        for call in calls:
+            call["n_jobs"] = rng.choice([2, 3, 4, 5])
     for c, call in enumerate(calls):
         if call["gap_before"] and rng.random() < 0.6:
             # few tasks on the respawned workers, one of which dies early in its first task
             m = rng.choice([1, 1, 2, 3])
-            call.update(n=m, sizes=call["sizes"][:m] + [10] * (m - len(call["sizes"][:m])), dur=([0.0] + call["dur"])[:m] + [0.0] * (m - len(([0.0] + call["dur"])[:m])))
+            call.update(n=m, sizes=call["sizes"][:m] + [10] * (m - len(call["sizes"][:m])), args=[0] * m, dur=([0.0] + call["dur"])[:m] + [0.0] * (m - len(([0.0] + call["dur"])[:m])))
             kills = [k for k in kills if k["call"] != c] + [{"call": c, "when": "during", "kind": rng.choice(["task", "label:running_task", "pread"]),
                                                             "nth": 1, "delay": 0.0, "code": -9}]
     return {"n_jobs": n_jobs, "batch_size": rng.choice([1, 1, 2, "auto"]), "managed": rng.random() < 0.5, "calls": calls,
+            "pre_dispatch": rng.choice(["2*n_jobs", "2*n_jobs", "all", "n_jobs"]),
             "kills": kills, "strategy": dict(rng.choice(ds.STRATEGIES), **{"p_jump": 0.0}), "sched_seed": rng.randrange(1 << 31)}
 
 
@@ -266,7 +275,7 @@ def run_case(case):
         s.sleep(k["delay"])
 
     def main():
-        p = Parallel(n_jobs=case["n_jobs"], backend="loky", batch_size=case["batch_size"])
+        p = Parallel(n_jobs=case["n_jobs"], backend="loky", batch_size=case["batch_size"], pre_dispatch=case.get("pre_dispatch", "2*n_jobs"))
         if case["managed"]:
             p.__enter__()
         for c, call in enumerate(case["calls"]):
@@ -280,8 +289,11 @@ def run_case(case):
                     arm(k)
             rec = {"c": c, "t0": s.now, "running": True}
             out["calls"].append(rec); out["cur"] = c
+            if call.get("n_jobs") and not case["managed"]:
+                p = Parallel(n_jobs=call["n_jobs"], backend="loky", batch_size=case["batch_size"], pre_dispatch=case.get("pre_dispatch", "2*n_jobs"))
             try:
-                r = p(delayed(work)(c, i, call["sizes"][i], call["dur"][i]) for i in range(call["n"]))
+                blobs = call.get("args") or [0] * call["n"]
+                r = p(delayed(work)(c, i, call["sizes"][i], call["dur"][i], b"a" * blobs[i]) for i in range(call["n"]))
                 ok = [(a, b, len(d)) for a, b, d in r] == [(c, i, call["sizes"][i]) for i in range(call["n"])]
                 rec["outcome"] = "ok" if ok else "WRONG"
                 if not ok:
@@ -386,7 +398,7 @@ def shrink(case):
         n = call["n"]
         for m in sorted({n // 2, n - 1}):
             if 1 <= m < n:
-                yield dict(case, calls=calls[:k] + [dict(call, n=m, sizes=call["sizes"][:m], dur=call["dur"][:m])] + calls[k + 1:])
+                yield dict(case, calls=calls[:k] + [dict(call, n=m, sizes=call["sizes"][:m], dur=call["dur"][:m], args=(call.get("args") or [0] * n)[:m])] + calls[k + 1:])
         if any(call["dur"]):
             yield dict(case, calls=calls[:k] + [dict(call, dur=[0.0] * n)] + calls[k + 1:])
     if case["n_jobs"] > 2:
